@@ -293,6 +293,12 @@ class Gen:
         eff = nid if nid is not None else self.next_n
         self.name_counter = getattr(self, 'name_counter', 0) + 1
         name = f's{self.name_counter}'
+        # the same step name on several assets is the normal case (and nodes without an asset may repeat a name: their
+        # full names differ by the id); only the full names of live nodes are pairwise distinct
+        if self.live_n and r.random() < 0.35:
+            again = self.snames[r.choice(self.live_n)]
+            full = (asset + ':' + again) if asset else f'{eff}:{again}'
+            if full not in {self.names[x] for x in self.live_n}: name = again
         op = {'k': 'add_node', 'name': name, 'asset': asset, 'type': t,
               'viable': r.random() < 0.7, 'necessary': r.random() < 0.7,
               'defOne': r.random() < 0.5, 'suppress': r.random() < 0.3, 'id': nid}
@@ -310,7 +316,9 @@ class Gen:
                 op['defense'] = repr(r.choice([0.0, 1.0, 0.5, 0.25, 1e-05])); op['defOne'] = op['defense'] == '1.0'
             if t in ('exist', 'notExist'): op['exist'] = r.random() < 0.5
             if r.random() < 0.3: op['mitre'] = 'T1' + str(r.randint(100, 999))
-            if r.random() < 0.3: op['extras'] = jtxt({'pos': [r.randint(0, 9), r.randint(0, 9)], 'note': 'x', **({'w': 2.5e-07} if r.random() < 0.3 else {})})
+            if r.random() < 0.3: op['extras'] = jtxt({'pos': [r.randint(0, 9), r.randint(0, 9)], 'note': 'x', **({'w': 2.5e-07} if r.random() < 0.3 else {}),
+                                                              # free-form metadata may use the words the node's own attributes use
+                                                              **({r.choice(['name', 'type', 'id', 'full_name', 'is_viable', 'ttc', 'asset', 'children']): r.choice(['other', 7, False])} if r.random() < 0.3 else {})})
         self.snames = getattr(self, 'snames', {}); self.assets_of = getattr(self, 'assets_of', {})
         self.ops.append(op)
         if eff in {self.ids[x] for x in self.live_n}:
